@@ -821,6 +821,14 @@ impl PackedDnaStringSet {
     }
 }
 
+
+// Verification hook (guarded, see src/lib.rs): contracts that need this module's private items.
+#[cfg(any(kani, debruijn_verif))]
+#[allow(dead_code, unused_imports, unused_macros, unused_variables, non_snake_case)]
+pub mod verif {
+    include!(concat!(env!("DEBRUIJN_VERIF_DIR"), "/kani/m_dna_string.rs"));
+}
+
 #[cfg(test)]
 mod tests {
     use super::*;
